@@ -36,10 +36,15 @@ def run(ctx):
     for lib in gen.SHIPPED:
         modes = [('name', {'op': 'load', 'spec': lib}, None),
                  ('path', {'op': 'load', 'spec': os.path.join(vlib.REPO, 'pgradd', 'data', lib, 'library.yaml')}, None),
-                 ('relocated', {'op': 'load', 'spec': lib, 'env': reloc}, None)]
+                 ('relocated', {'op': 'load', 'spec': lib, 'env': reloc}, None),
+                 # explicit paths relative to the working directory: with a directory part, and the bare file name
+                 ('relpath', {'op': 'load', 'spec': os.path.join(lib, 'library.yaml'), 'cwd': os.path.join(vlib.REPO, 'pgradd', 'data')}, None),
+                 ('barefile', {'op': 'load', 'spec': 'library.yaml', 'cwd': os.path.join(vlib.REPO, 'pgradd', 'data', lib)}, None)]
         fps = []
-        for mode, job, _ in modes:
-            r, diag = vlib.run_impl('libs', {'cases': [job]}, timeout=600)
+        from concurrent.futures import ThreadPoolExecutor
+        with ThreadPoolExecutor(len(modes)) as ex:
+            outs = list(ex.map(lambda mj: vlib.run_impl('libs', {'cases': [mj[1]]}, timeout=600), modes))
+        for (mode, job, _), (r, diag) in zip(modes, outs):
             x = r['results'][0] if r else {'exc': 'child', 'msg': diag}
             ctx.count((lib, mode))
             if 'fp' not in x:
@@ -48,7 +53,7 @@ def run(ctx):
                 fps.append((mode, x['fp'], x['n'], x['path']))
         if len(set(f[1] for f in fps)) > 1:
             ctx.violate('contents:%s' % lib, 'library %s has different contents depending on how it is located' % lib, {'lib': lib}, 'identical', fps)
-        if len(fps) == 3 and not fps[2][3].startswith(reloc):
+        if len(fps) >= 3 and fps[2][0] == 'relocated' and not fps[2][3].startswith(reloc):
             ctx.violate('override:%s' % lib, 'the data-directory override was not honoured', {'lib': lib}, reloc, fps[2][3])
         ctx.sample({'lib': lib, 'fingerprints': [f[:3] for f in fps]}, limit=3)
     # audit
